@@ -942,6 +942,45 @@ impl RandomSched {
             let busy = !cands.is_empty();
             cands.push((Op::Time { ms: ms.max(1) }, if busy { 14 } else { 100 }));
         }
+        // Coincidence: time runs up to exactly the MPP deadline of a waiting
+        // set and another HTLC of that hash is handed over in that very
+        // instant (with late-observed timers the plugin may see either first).
+        if c.f_multi > 0 && sim.w.init_acked {
+            let now = sim.w.now_ms;
+            for (x, e) in sim.or.entries.iter() {
+                if e.first_answer.is_some() || e.attempt_started {
+                    continue;
+                }
+                if let (Some(ws), Some(left)) = (e.wait_start_ms, e.time_left_ms) {
+                    let due = ws.saturating_add(left);
+                    if due <= now || due - now > 10_000_000_000 {
+                        continue;
+                    }
+                    let hix = super::content::pool().hash_index(x).unwrap_or(255);
+                    let waiting: Vec<u64> = node
+                        .htlcs
+                        .iter()
+                        .filter(|h| h.state == HtlcState::Offered && h.spec.hash_ix == hix)
+                        .map(|h| h.hid)
+                        .collect();
+                    if let Some(hid) = waiting.first() {
+                        let hid = if waiting.len() > 1 { *self.rng.pick(&waiting) } else { *hid };
+                        cands.push((
+                            Op::Multi {
+                                ops: vec![
+                                    Op::Time { ms: due - now },
+                                    Op::Deliver {
+                                        hids: vec![hid],
+                                        release: u32::MAX,
+                                    },
+                                ],
+                            },
+                            30,
+                        ));
+                    }
+                }
+            }
+        }
         // Blocks
         {
             let k = *self.rng.pick(&[1u32, 1, 1, 2, 6, 144]);
